@@ -538,6 +538,55 @@ fn c16facts(repo: &Path) -> Result<String, String> {
     let ptr_eq_first = first.starts_with("ifArc::ptr_eq(&self.0,&other.0){returntrue;}");
     notes.push(format!("ErasedList::eq: ptr_eq first = {ptr_eq_first}; address-ordered = {eq_ordered}; {}", show(&et)));
 
+    // ---- the typed `List<T>::eq` (Rust-side `==`): same lock discipline as ErasedList::eq
+    let te = find::func(&f, "eq", Some("PartialEq for List"))?;
+    let tt = trace(&te.block);
+    let tl: Vec<String> =
+        tt.iter().filter_map(|t| if let Tok::Lock { recv, .. } = t { Some(recv.clone()) } else { None }).collect();
+    let mut tifs = Ifs(vec![]);
+    tifs.visit_block(&te.block);
+    let t_ordered_if: Vec<&syn::ExprIf> = tifs
+        .0
+        .iter()
+        .filter(|i| norm(&i.cond) == "Arc::as_ptr(&self.inner.0)<Arc::as_ptr(&other.inner.0)")
+        .collect();
+    let typed_ordered = match t_ordered_if.as_slice() {
+        [i] => {
+            let then_l = lock_recvs(&trace(&i.then_branch));
+            let else_l = match &i.else_branch {
+                Some((_, e)) => match &**e {
+                    syn::Expr::Block(b) => lock_recvs(&trace(&b.block)),
+                    _ => vec![],
+                },
+                None => vec![],
+            };
+            if then_l != ["self.inner.0", "other.inner.0"] || else_l != ["other.inner.0", "self.inner.0"] || tl.len() != 4 {
+                return Err(format!(
+                    "List<T>::eq: address-ordered locking expected `self, other` / `other, self` in the two branches, found {then_l:?} / {else_l:?}: {}",
+                    show(&tt)
+                ));
+            }
+            true
+        }
+        [] => {
+            // argument order (or, on the pinned tree, `self` twice): not the ordered form
+            if tl != ["self.inner.0", "other.inner.0"] && tl != ["self.inner.0", "self.inner.0"] {
+                return Err(format!("List<T>::eq: unrecognised lock sequence {tl:?}: {}", show(&tt)));
+            }
+            false
+        }
+        _ => return Err(format!("List<T>::eq: more than one address comparison: {}", show(&tt))),
+    };
+    if tt.iter().any(|t| matches!(t, Tok::Drop(_))) {
+        return Err(format!("List<T>::eq drops a guard explicitly: {}", show(&tt)));
+    }
+    let tfirst = te.block.stmts.first().map(|s| norm(s)).unwrap_or_default();
+    let typed_ptr_eq_first = tfirst.starts_with("ifArc::ptr_eq(&self.inner.0,&other.inner.0){returntrue;}");
+    notes.push(format!(
+        "List<T>::eq: ptr_eq first = {typed_ptr_eq_first}; address-ordered = {typed_ordered}; {}",
+        show(&tt)
+    ));
+
     let b = |x: bool| if x { "true" } else { "false" };
     let mut out = String::new();
     out.push_str("/- GENERATED by /verif/extract (target `c16facts`) from src/value/list.rs — do not edit.\n");
@@ -555,6 +604,11 @@ fn c16facts(repo: &Path) -> Result<String, String> {
     out.push_str(&format!("def methodShapes : List (Method × Shape) :=\n  [{}]\n\n", shapes.join(", ")));
     out.push_str(&format!("def concatTrace : List LockTok :=\n  [{}]\n\n", concat_trace.join(", ")));
     out.push_str(&format!("def eqPtrEqFirst : Bool := {}\n\n", b(ptr_eq_first)));
+    out.push_str(&format!(
+        "/-- the typed `List<T>::eq`: `Arc::ptr_eq` short-cut first, then both mutexes in address order -/\ndef typedEqPtrEqFirst : Bool := {}\ndef typedEqOrdered : Bool := {}\n\n",
+        b(typed_ptr_eq_first),
+        b(typed_ordered)
+    ));
     out.push_str(&format!("def eqTrace : List LockTok :=\n  [{}]\n", eq_trace.join(", ")));
     out.push_str("\nend RotoV.Gen.C16\n");
     Ok(out)
